@@ -168,10 +168,11 @@ theorem rescale_rounded (m : RoundMode) {E e : Int} (v : Int) (h : e < E) :
   simp only [rescale, this, ite_false]
 
 /-- the hypothesis of the conversion theorems, spelled out: the exponent does not grow, or it grows by
-`k < digits` and the rounded quotient fits the intermediate `digits − k` digits -/
+`k ≤ digits` and the rounded quotient fits the intermediate `digits − k` digits (for `k = digits`:
+it is `0`) -/
 theorem not_knownDefect_iff (c : Cfg) (E : Int) (x : SNum) :
     ¬ KnownDefect c E x ↔
-      (E ≤ x.exp ∨ ((E - x.exp).toNat < x.digits ∧
+      (E ≤ x.exp ∨ ((E - x.exp).toNat ≤ x.digits ∧
         (roundDiv (rmode c.mode) x.value (2^(E - x.exp).toNat)).natAbs ≤ 2^(x.digits - (E - x.exp).toNat) - 1)) := by
   unfold KnownDefect NarrowingDropsAllDigits RoundedExceedsIntermediate
   constructor
@@ -179,7 +180,7 @@ theorem not_knownDefect_iff (c : Cfg) (E : Int) (x : SNum) :
     by_cases hE : E ≤ x.exp
     · exact .inl hE
     · right
-      have hk : (E - x.exp).toNat < x.digits :=
+      have hk : (E - x.exp).toNat ≤ x.digits :=
         Decidable.byContradiction fun hk => h (.inl ⟨by omega, by omega⟩)
       exact ⟨hk, Decidable.byContradiction fun hq => h (.inr ⟨by omega, hk, by omega⟩)⟩
   · rintro (h | ⟨h1, h2⟩) (⟨h3, h4⟩ | ⟨h3, h4, h5⟩) <;> omega
@@ -240,11 +241,29 @@ example : (⟨8, -2, 203⟩ : SNum).InRange ∧ ¬ KnownDefect ⟨.nrst, .sat⟩
   have e : Static.convert ⟨.nrst, .sat⟩ 6 1 ⟨8, -2, 203⟩ = .ok ⟨6, 1, 25⟩ := by decide
   rw [e] at h; cases h
 
+-- the boundary `k = digits` (the intermediate type is an `elastic_integer<0>`, range `[0, 0]`): a
+-- quotient that rounds to `0` is converted correctly …
+example : Static.convert ⟨.ninf, .thr⟩ 20 0 ⟨31, -31, 2147483647⟩ = .ok ⟨20, 0, 0⟩ ∧
+    ¬ KnownDefect ⟨.ninf, .thr⟩ 0 ⟨31, -31, 2147483647⟩ := by decide
+example : Static.convert ⟨.nrst, .sat⟩ 20 0 ⟨31, -31, 1073741823⟩ = .ok ⟨20, 0, 0⟩ ∧
+    ¬ KnownDefect ⟨.nrst, .sat⟩ 0 ⟨31, -31, 1073741823⟩ := by decide
+-- … a quotient that rounds to `±1` belongs to the open class `rounded_value_exceeds_intermediate_digits`:
+-- a spurious signal under the throwing tag, silently `0` under the saturated tag
+example : Static.convert ⟨.nrst, .thr⟩ 20 0 ⟨31, -31, 2147483647⟩ = .throws true ∧
+    idealCvt ⟨.nrst, .thr⟩ 20 0 (.val (-31) 2147483647) = .val 0 1 ∧
+    RoundedExceedsIntermediate ⟨.nrst, .thr⟩ 0 ⟨31, -31, 2147483647⟩ := by decide
+example : Static.convert ⟨.ninf, .sat⟩ 20 0 ⟨31, -31, -1⟩ = .ok ⟨20, 0, 0⟩ ∧
+    idealCvt ⟨.ninf, .sat⟩ 20 0 (.val (-31) (-1)) = .val 0 (-1) ∧
+    RoundedExceedsIntermediate ⟨.ninf, .sat⟩ 0 ⟨31, -31, -1⟩ := by decide
+-- one more and the behaviour is undefined
+example : Static.convert ⟨.ninf, .thr⟩ 20 1 ⟨31, -31, 2147483647⟩ = .ub .shiftCount ∧
+    NarrowingDropsAllDigits 1 ⟨31, -31, 2147483647⟩ := by decide
+
 /-! ### the two open defect classes are genuine: each hypothesis is needed -/
 
-/-- open finding `C11.narrowing_drops_all_digits`: raising the exponent by at least the source's
+/-- open finding `C11.narrowing_drops_all_digits`: raising the exponent by more than the source's
 digit count executes undefined behaviour (a shift by a negative count in the limits of an
-elastic_integer with a non-positive digit count) instead of yielding `0`.
+elastic_integer with a negative digit count) instead of yielding `0`.
 Witness `static_number<1, −4>{−1·2^−4}` assigned to `static_number<63, 0>`. -/
 theorem narrowing_drops_all_digits_refuted :
     ¬ (∀ (c : Cfg) (D : Nat) (E : Int) (x : SNum), x.InRange → ¬ RoundedExceedsIntermediate c E x →
